@@ -42,11 +42,12 @@ RX = re.compile(r'/((?:[^/\\]|\\.)*)/')
 
 def parse_sub(arg):
     """RULE /regex/ => replacement [xN]"""
-    m = re.match(r'\s*(\S+)\s+/((?:[^/\\]|\\.)*)/\s*=>\s?(.*?)(?:\s+x(\d+))?\s*$', arg, re.S)
+    m = re.match(r'\s*(\S+)\s+/((?:[^/\\]|\\.)*)/\s*=>\s?(.*?)(?:\s+x(\d+|\*))?\s*$', arg, re.S)
     if not m:
         raise GenError('bad sub directive: ' + arg)
     rule, rx, repl, cnt = m.group(1), m.group(2), m.group(3), m.group(4)
-    return rule, rx.replace('\\/', '/'), repl, int(cnt) if cnt else 1
+    # xN = exactly N matches (default 1); x* = any number of matches, including none (tolerates code that moves a call around)
+    return rule, rx.replace('\\/', '/'), repl, (-1 if cnt == '*' else int(cnt)) if cnt else 1
 
 
 class Block:
@@ -397,7 +398,7 @@ def build_fn(block, orig, canary=False, mutant=None):
     full = header + '\x00' + body
     for rule, rx, repl, cnt in block.subs:
         full, k = re.subn(rx, repl, full)
-        if k != cnt:
+        if cnt >= 0 and k != cnt:
             raise GenError('fn %s: sub %s /%s/ matched %d times, expected %d' % (block.name, rule, rx, k, cnt))
         counts[rule] = counts.get(rule, 0) + k
     if mutant is not None and mutant[0].startswith('post_'):
@@ -481,7 +482,7 @@ def build_item(block, orig):
     text = re.sub(r'#\[(derive|builder|allow|inline|doc|cfg_attr)[^\]]*\]\s*', '', text)
     for rule, rx, repl, cnt in block.subs:
         text, k = re.subn(rx, repl, text)
-        if k != cnt:
+        if cnt >= 0 and k != cnt:
             raise GenError('item %s: sub %s /%s/ matched %d times, expected %d' % (block.name, rule, rx, k, cnt))
         info['rewrites'][rule] = info['rewrites'].get(rule, 0) + k
     out = ''
